@@ -9,6 +9,7 @@ from harness import instr
 from harness.gen import shared_mutables
 from hypothesis import strategies as st
 
+import lena.context
 import lena.core
 import lena.structures.hist_functions
 import lena.structures.split_into_bins
@@ -180,86 +181,126 @@ def results_equal(a, b):
 
 # ---- SplitIntoBins -------------------------------------------------------------------------
 
+def _as_edges(edges, dim, how):
+    """the same edges spelled with tuples (documented as arrays / sequences of them)"""
+    if how == "tuples":
+        return tuple(edges) if dim == 1 else [tuple(a) for a in edges]
+    if how == "mixed" and dim == 2:
+        return [list(edges[0]), tuple(edges[1])]
+    if how == "outer_tuple" and dim == 2:
+        return tuple(list(a) for a in edges)
+    return copy.deepcopy(edges)
+
+
+def _listed(e):
+    if isinstance(e, (list, tuple)):
+        return [_listed(x) for x in e]
+    return e
+
+
 def judge_sib(case):
     dim, edges, recipe = case["dim"], case["edges"], case["recipe"]
-    flow_js = case["flow"]
     arg = make_arg(dim, case["typed"])
     arg_snapshot = copy.deepcopy(arg.var_context)
-    sib = SplitIntoBins(build_inner(recipe, case.get("bare", False)), arg, copy.deepcopy(edges))
-    flow = mkflow(flow_js)
-    snapshot = copy.deepcopy(flow)
-    for i, v in enumerate(flow):
-        try:
-            with instr.Watchdog(WATCHED, 5000):
-                sib.fill(v)
-        except instr.StepBudgetExceeded:
-            raise Violation("fill-does-not-terminate", "edges %s, value %r: more than 5000 steps" % (edges, v))
-    res = list(sib.compute())
+    sib = SplitIntoBins(build_inner(recipe, case.get("bare", False)), arg, _as_edges(edges, dim, case.get("edges_as", "lists")))
     # oracle: route by bisect, private fresh analysis per cell
     shape = shape_of(dim, edges)
     cells = list(itertools.product(*[range(s) for s in shape]))
     sub = dict((c, []) for c in cells)
+    inners = dict((c, build_inner(recipe, case.get("bare", False))) for c in cells)
+    stopped = set()
     last_in = None
     n_out = n_border = 0
     axes = [edges] if dim == 1 else edges
-    for v in snapshot:
-        d = sv(v)[0]
-        c = cell_of(dim, edges, d)
-        if any(x in ax for ax, x in zip(axes, d[:dim])):
-            n_border += 1
-        if c is None:
-            n_out += 1
-            continue
-        sub[c].append(v)
-        last_in = v
-    exp = {}
-    for c in cells:
-        inner = build_inner(recipe, case.get("bare", False))
-        for v in copy.deepcopy(sub[c]):
+    rounds = [case["flow"]] + ([case["flow2"]] if case.get("flow2") is not None else [])
+    for rnd, flow_js in enumerate(rounds):
+        flow = mkflow(flow_js)
+        snapshot = copy.deepcopy(flow)
+        for i, v in enumerate(flow):
             try:
-                inner.fill(v)
-            except LenaStopFill:
-                break
-        exp[c] = list(inner.compute())
-    nres = min(len(r) for r in exp.values())
-    descr = "edges %s, analysis %s, flow %s" % (edges, recipe, short(snapshot, 400))
-    if len(res) != nres:
-        raise Violation("wrong-number-of-histograms", "%s: %d histograms, the cells alone yield %s results" % (
-            descr, len(res), dict((c, len(r)) for c, r in exp.items())))
-    for j, (h, ctx) in enumerate(res):
-        if not isinstance(h, histogram) or h.edges != edges:
-            raise Violation("histogram-edges-differ", "%s: %r" % (descr, h))
+                with instr.Watchdog(WATCHED, 5000):
+                    sib.fill(v)
+            except instr.StepBudgetExceeded:
+                raise Violation("fill-does-not-terminate", "edges %s, value %r: more than 5000 steps" % (edges, v))
+        with instr.Watchdog(WATCHED, 200000):
+            try:
+                res = list(itertools.islice(sib.compute(), 50))
+            except instr.StepBudgetExceeded:
+                raise Violation("compute-does-not-terminate", "edges %s (%s), analysis %s" % (edges, case.get("edges_as"), recipe))
+        new = dict((c, []) for c in cells)
+        for v in snapshot:
+            d = sv(v)[0]
+            c = cell_of(dim, edges, d)
+            if any(x in ax for ax, x in zip(axes, d[:dim])):
+                n_border += 1
+            if c is None:
+                n_out += 1
+                continue
+            sub[c].append(v)
+            new[c].append(v)
+            last_in = v
+        exp = {}
         for c in cells:
-            got = get_cell(h.bins, c)
-            if not results_equal(got, exp[c][j]):
-                raise Violation("cell-differs-from-private-analysis-of-its-sub-flow",
-                                "%s: cell %s of histogram %d holds %s; a private copy of the analysis on the cell's values %s yields %s" % (
-                                    descr, c, j, short(got, 300), short(sub[c], 300), short(exp[c][j], 300)))
-        # context: that of the last in-range value, variable = the argument variable
-        if last_in is None:
-            base = {}
-            exp_ctx = None
-        else:
-            d, c0 = sv(last_in)
-            out = make_arg(dim, case["typed"])((d, copy.deepcopy(c0) if c0 is not None else {}))
-            exp_ctx = out[1]
-        if exp_ctx is not None and ctx != exp_ctx:
-            sig = "histogram-context-differs"
-            if ctx.get("variable") != exp_ctx.get("variable"):
-                sig = "context.variable-does-not-describe-the-argument-variable"
-            raise Violation(sig, "%s: histogram context %s, expected that of the last in-range value with the argument variable: %s" % (
-                descr, ctx, exp_ctx))
-        if exp_ctx is None and ctx.get("variable", {}).get("name") != arg.name:
-            raise Violation("context.variable-does-not-describe-the-argument-variable", "%s: %s" % (descr, ctx))
-        for k, (h2, ctx2) in enumerate(res[:j]):
-            if shared_mutables(ctx, ctx2):
-                raise Violation("histogram-contexts-share-objects", descr)
-    if arg.var_context != arg_snapshot:
-        raise Violation("argument-variable-changed-by-use",
-                        "%s: the argument variable's own context became %s (was %s)" % (descr, arg.var_context, arg_snapshot))
+            if c not in stopped:
+                for v in copy.deepcopy(new[c]):
+                    try:
+                        inners[c].fill(v)
+                    except LenaStopFill:
+                        stopped.add(c)
+                        break
+            exp[c] = list(inners[c].compute())
+        nres = min(len(r) for r in exp.values())
+        descr = "edges %s%s, analysis %s, %sflow %s" % (edges, "" if case.get("edges_as", "lists") == "lists" else " given as " + case["edges_as"], recipe,
+                                                      "" if rnd == 0 else "second fill/compute round after %s, " % short(rounds[0], 200), short(snapshot, 400))
+        if len(res) != nres:
+            raise Violation("wrong-number-of-histograms", "%s: %d histograms, the cells alone yield %s results" % (
+                descr, len(res), dict((c, len(r)) for c, r in exp.items())))
+        for j, (h, ctx) in enumerate(res):
+            if not isinstance(h, histogram) or _listed(h.edges) != edges:
+                raise Violation("histogram-edges-differ", "%s: %r" % (descr, h))
+            for c in cells:
+                try:
+                    got = get_cell(h.bins, c)
+                except (IndexError, TypeError):
+                    raise Violation("histogram-shape-differs", "%s: no cell %s in bins %s" % (descr, c, short(h.bins, 300)))
+                if not results_equal(got, exp[c][j]):
+                    raise Violation("cell-differs-from-private-analysis-of-its-sub-flow",
+                                    "%s: cell %s of histogram %d holds %s; a private copy of the analysis on the cell's values %s yields %s" % (
+                                        descr, c, j, short(got, 300), short(sub[c], 300), short(exp[c][j], 300)))
+            # context: that of the last in-range value, variable = the argument variable
+            if last_in is None:
+                exp_ctx = None
+            else:
+                d, c0 = sv(last_in)
+                out = make_arg(dim, case["typed"])((d, copy.deepcopy(c0) if c0 is not None else {}))
+                exp_ctx = out[1]
+            if rnd > 0 and not any(new.values()):
+                # compute() again without a new in-range value: the argument variable is applied to the stored
+                # context a second time (what that composition looks like is not part of the statement);
+                # the rest of the context and the variable's name are
+                same_rest = exp_ctx is None or dict((k, x) for k, x in ctx.items() if k != "variable") == \
+                    dict((k, x) for k, x in exp_ctx.items() if k != "variable")
+                if not same_rest or ctx.get("variable", {}).get("name") != arg.name:
+                    raise Violation("context.variable-does-not-describe-the-argument-variable", "%s: repeated compute() gives context %s" % (descr, ctx))
+                continue
+            if exp_ctx is not None and ctx != exp_ctx:
+                sig = "histogram-context-differs"
+                if ctx.get("variable") != exp_ctx.get("variable"):
+                    sig = "context.variable-does-not-describe-the-argument-variable"
+                raise Violation(sig, "%s: histogram context %s, expected that of the last in-range value with the argument variable: %s" % (
+                    descr, ctx, exp_ctx))
+            if exp_ctx is None and ctx.get("variable", {}).get("name") != arg.name:
+                raise Violation("context.variable-does-not-describe-the-argument-variable", "%s: %s" % (descr, ctx))
+            for k, (h2, ctx2) in enumerate(res[:j]):
+                if shared_mutables(ctx, ctx2):
+                    raise Violation("histogram-contexts-share-objects", descr)
+        if arg.var_context != arg_snapshot:
+            raise Violation("argument-variable-changed-by-use",
+                            "%s: the argument variable's own context became %s (was %s)" % (descr, arg.var_context, arg_snapshot))
     filled_cells = sum(1 for c in cells if sub[c])
     has_mut = any(r[0] in ("mut", "varw") for r in recipe)
-    classes = ["dim:%d" % dim, "acc:" + [r[0] for r in recipe if r[0] in ("wsum", "count", "store", "store1", "uacc", "hist")][0]]
+    classes = ["dim:%d" % dim, "acc:" + [r[0] for r in recipe if r[0] in ("wsum", "count", "store", "store1", "uacc", "hist")][0],
+               "edges-as:" + case.get("edges_as", "lists"), "rounds:%d" % len(rounds)]
     if any(r[0] == "slice" for r in recipe):
         classes.append("stopping-pre-element")
     if n_border:
@@ -320,8 +361,15 @@ def sib_case(draw):
     for _ in range(draw(st.integers(0, 20))):
         d = [draw(coord(axes[0])), draw(coord(axes[1])) if dim == 2 else 0, draw(st.integers(0, 9))]
         flow.append({"d": d, "c": draw(ctxs)})
+    flow2 = None
+    if draw(st.integers(0, 3)) == 0:
+        flow2 = []
+        for _ in range(draw(st.integers(0, 6))):
+            d = [draw(coord(axes[0])), draw(coord(axes[1])) if dim == 2 else 0, draw(st.integers(0, 9))]
+            flow2.append({"d": d, "c": draw(ctxs)})
     return {"dim": dim, "edges": axes[0] if dim == 1 else axes, "recipe": recipe, "bare": bare,
-            "typed": draw(st.booleans()), "flow": flow}
+            "typed": draw(st.booleans()), "flow": flow, "flow2": flow2,
+            "edges_as": draw(st.sampled_from(["lists", "lists", "lists", "tuples", "mixed", "outer_tuple"]))}
 
 
 # ---- IterateBins ------------------------------------------------------------------------------
@@ -401,6 +449,17 @@ class Expand(object):
             yield sv(v)[0] + 100
 
 
+class Expand2(object):
+    """1:2, each result with its own context"""
+
+    def run(self, flow):
+        for v in flow:
+            d, c = sv(v)
+            c = copy.deepcopy(c) if c is not None else {}
+            yield (d, dict(c, r={"first": 1}))
+            yield (d + 100, dict(c, q={"second": 2}))
+
+
 class EvenOnly(object):
     def run(self, flow):
         for v in flow:
@@ -433,6 +492,8 @@ def build_map_seq(r):
             els.append(Count())
         elif k == "expand":
             els.append(Expand())
+        elif k == "expand2":
+            els.append(Expand2())
         elif k == "even":
             els.append(EvenOnly())
         elif k == "store1":
@@ -453,7 +514,7 @@ def map_case(draw):
     return {"dim": dim, "edges": axes[0] if dim == 1 else axes,
             "cells": draw(st.lists(st.integers(0, 9), min_size=n, max_size=n)),
             "cell_ctx": draw(st.booleans()),
-            "seq": draw(st.lists(st.sampled_from(["dbl", "ctx", "sum", "count", "expand", "even", "store1", "dbl", "sum"]), min_size=1, max_size=3)),
+            "seq": draw(st.lists(st.sampled_from(["dbl", "ctx", "sum", "count", "expand", "expand2", "even", "store1", "dbl", "sum"]), min_size=1, max_size=3)),
             "drop": draw(st.booleans()),
             # (the histogram context may already carry a "value" subcontext, e.g. from an earlier MapBins)
             "ctx": draw(st.dictionaries(st.sampled_from(["a", "k", "value"]), st.one_of(st.integers(0, 3), st.fixed_dictionaries({"q": st.integers(0, 2)})), max_size=3))}
@@ -506,6 +567,21 @@ def judge_map(case):
         rest = dict((k, x) for k, x in (c2 or {}).items() if k != "value")
         if rest != dict((k, x) for k, x in case["ctx"].items() if k != "value"):
             raise Violation("mapbins-context-changed", "%s: %s vs %s" % (descr, c2, case["ctx"]))
+        # context.value: the histogram's context updated (update_nested) with the context of this result's bins
+        # (that of an example bin, the first cell), and nothing of the other results
+        bin_ctx = copy.deepcopy(sv(exp[cells[0]][j])[1])
+        want_ctx = copy.deepcopy(case["ctx"])
+        if bin_ctx:
+            lena.context.update_nested("value", want_ctx, bin_ctx)
+        if (c2 or {}) != want_ctx:
+            raise Violation("mapbins-context-value-does-not-describe-this-result",
+                            "%s: context of result %d is %s, expected the histogram context %s with value updated by the bin context %s: %s" % (
+                                descr, j, c2, case["ctx"], sv(exp[cells[0]][j])[1], want_ctx))
+        for k in range(j):
+            if shared_mutables(c2, sv(out[k])[1]):
+                raise Violation("mapbins-contexts-share-objects", "%s: results %d and %d" % (descr, k, j))
+        if shared_mutables(c2, ctx):
+            raise Violation("mapbins-contexts-share-objects", "%s: result %d and the incoming histogram" % (descr, j))
     stateful = any(k in ("sum", "count", "store1") for k in case["seq"])
     return {"nontrivial": len(cells) >= 2 and (stateful or dim == 2),
             "classes": ["dim:%d" % dim, "stateful-seq" if stateful else "stateless-seq", "results:%d" % min(nres, 3)]}
